@@ -13,11 +13,11 @@ import (
 func init() {
 	register(&Spec{
 		ID:          "C17",
-		Loads:       []LoadSpec{{Patterns: []string{"./lnwallet", "./lnwallet/chancloser"}}},
-		Explanation: "Decides that proposal and completion derive the closing transaction from the same inputs (same balance computation, dust limits, scripts and forwarded options), that the two halves of the transaction builder are each other's mirror image (own balance against own dust limit, own script), that the final balances credit the dangling commit fee and the anchors to the opener and charge the closing fee to the payer and fail when negative, that completion marks the channel closed and returns only after the script engine accepted the witness built from (our key, our sig, their key, their sig) against the funding output, and that the legacy negotiation calls the compromise function with (ideal, last sent, remote) in that order, the compromise function moves towards the remote offer in every order region, a proposal above the fee cap is never signed by the opener and completion uses our stored signature for exactly the fee the peer proposed.",
+		Loads:       []LoadSpec{{Patterns: []string{"./lnwallet", "./lnwallet/chancloser", "./peer"}}},
+		Explanation: "Decides that proposal and completion derive the closing transaction from the same inputs (same balance computation, dust limits, scripts and forwarded options), that the two halves of the transaction builder are each other's mirror image (own balance against own dust limit, own script), that the final balances credit the dangling commit fee and the anchors to the opener and charge the closing fee to the payer and fail when negative, that completion marks the channel closed and returns only after the script engine accepted the witness built from (our key, our sig, their key, their sig) against the funding output, and that the legacy negotiation calls the compromise function with (ideal, last sent, remote) in that order, the compromise function moves towards the remote offer in every order region, a proposal above the fee cap is never signed by the opener and completion uses our stored signature for exactly the fee the peer proposed; for the RBF flow that the terms announced in closing_complete / closing_sig (fee, scripts, lock time) are the terms signed, that the closee omits the closer's output in both halves exactly when the selected signature is the closee_output_only one and answers in the matching field, that a refused event leaves the shared close terms unchanged, that the balances handed to the state machine by package peer carry the opener's credit of CoopCloseBalance, and that the legacy closer's dust predicates are the negation of the builder's keep condition on the credited balance.",
 		NotDecided: []string{
 			"byte-identity of the two sides' transactions (only that each side feeds the builder the mirrored inputs)", "the numeric termination bound of the negotiation",
-			"the RBF cooperative close state machine beyond the agreement of the options, scripts and fee between the signing and the completing half of each flow", "signature validity (delegated to the script engine call whose dominance is decided)",
+			"the RBF cooperative close state machine beyond the agreement of the options, scripts, fee and announced terms between the signing and the completing half of each flow, the closee's choice of the transaction version, the restoration of the shared terms and the balances it is handed", "whether the field the closer puts its own signature into (closer_output_only / closee_output_only / both) matches the outputs of the transaction it signed (decided from the script's dust limit there, from the channel dust limits in the builder)", "signature validity (delegated to the script engine call whose dominance is decided)",
 		},
 		Assumptions: commonAssumptions,
 		Engines:     "MIRROR, ROLE, TABLE, PATH, GUARD",
@@ -88,10 +88,11 @@ func runC17(r *an.Run) {
 	lc := lw + "LightningChannel."
 
 	r.Obl("proposal-and-completion-same-inputs", "ROLE",
-		"CreateCloseProposal and CompleteCooperativeClose both call CoopCloseBalance(chan type, is-initiator, the proposed fee, local commitment's local balance, its remote balance, its commit fee, custom payer) and CreateCooperativeCloseTx(funding input, local dust limit, remote dust limit, the two computed balances in order, local script, remote script, options), and forward the same set of close options",
+		"CreateCloseProposal and CompleteCooperativeClose both call CoopCloseBalance(chan type, is-initiator, the proposed fee, local commitment's local balance, its remote balance, its commit fee, custom payer) and CreateCooperativeCloseTx(funding input, local dust limit, remote dust limit, the two computed balances in order, local script, remote script, options), and forward the same set of close options; the two balances handed to the builder are the results of that one call, written by nothing else, except that both functions set the remote balance to zero between the two calls exactly when the omit-remote-output option of the applied close options is set (the same statement under the same single condition in both)",
 		"a proposal signed over one transaction and a completion built from another never verifies; swapped dust limits or balances pay the wrong party", 10,
 		func(o *an.Obl) {
 			optSets := map[string][]string{}
+			zeroings := map[string]string{}
 			for _, name := range []string{"CreateCloseProposal", "CompleteCooperativeClose"} {
 				f := p.Func(lc + name)
 				// role of parameters by type
@@ -138,18 +139,10 @@ func runC17(r *an.Run) {
 							o.FailAt(f.ID+"#tx-arg-"+fmt.Sprint(i), tx[0].Where(), "%s passes %s as argument %d of CreateCooperativeCloseTx, expected %s", name, a[i], i, w)
 						}
 					}
-					// balances are results #0 and #1 of the balance call
-					for i, idx := range []int{3, 4} {
-						id, ok := c.Args[idx].(*ast.Ident)
-						if !ok {
-							o.FailAt(f.ID+"#tx-balance-"+fmt.Sprint(i), tx[0].Where(), "balance argument %d is %s", idx, an.Text(c.Args[idx]))
-							continue
-						}
-						call, ri := f.UniqueCallDef(id)
-						if call == nil || an.CalleeID(f.Info(), call) != lw+"CoopCloseBalance" || ri != i {
-							o.FailAt(f.ID+"#tx-balance-"+fmt.Sprint(i), tx[0].Where(), "argument %d of CreateCooperativeCloseTx (%s) is not result %d of CoopCloseBalance", idx, id.Name, i)
-						}
-					}
+					// balances are results #0 and #1 of the balance call; the
+					// remote one may only be zeroed when the remote output
+					// is omitted (same handling in both functions)
+					zeroings[name] = c17f4CloseBalances(o, f, name, tx[0], bal)
 					mustPass(o, f, "CoopCloseBalance", bal, an.OkErrNil, tx)
 				}
 				// forwarded options
@@ -171,6 +164,9 @@ func runC17(r *an.Run) {
 			}
 			if a, b := strings.Join(optSets["CreateCloseProposal"], ","), strings.Join(optSets["CompleteCooperativeClose"], ","); a != b || a == "" {
 				o.FailAt(lc+"CompleteCooperativeClose#options", "", "the proposal forwards options [%s] but the completion [%s]", a, b)
+			}
+			if a, b := zeroings["CreateCloseProposal"], zeroings["CompleteCooperativeClose"]; a != b || a == "" {
+				o.FailAt(lc+"CompleteCooperativeClose#omitted-output", "", "the proposal adjusts the computed balances by [%s] but the completion by [%s]: a transaction signed without the remote output is completed with it (or the reverse)", a, b)
 			}
 		})
 
@@ -304,7 +300,7 @@ func runC17(r *an.Run) {
 		})
 
 	r.Obl("legacy-negotiation", "TABLE",
-		"calcCompromiseFee(ideal, lastSent, remote): ideal when remote == ideal or nothing was sent yet; lastSent when remote == lastSent; for remote < lastSent the remote offer if acceptable else ratchetFee(lastSent, down); for remote > lastSent the remote offer if acceptable else ratchetFee(lastSent, up); ratchetFee moves by +-10%% in the stated direction; feeInAcceptableRange accepts remote within 30%% on the side it lies; ReceiveClosingSigned passes (c.idealFeeSat, c.lastFeeProposal, remote fee) in that order, never signs a proposal above maxFee as initiator, and completes with our stored signature for exactly the fee the peer proposed",
+		"calcCompromiseFee(ideal, lastSent, remote): ideal when remote == ideal or nothing was sent yet; lastSent when remote == lastSent; for remote < lastSent the remote offer if acceptable else ratchetFee(lastSent, down); for remote > lastSent the remote offer if acceptable else ratchetFee(lastSent, up); ratchetFee moves by +-10%% in the stated direction; feeInAcceptableRange accepts remote within 30%% on the side it lies; ReceiveClosingSigned passes (c.idealFeeSat, c.lastFeeProposal, remote fee) in that order, never signs a proposal above maxFee as initiator, and completes with our stored signature for exactly the fee the peer proposed; proposeCloseSigned stores the one closing_signed message it built for the fee under that fee, after the proposal was created",
 		"a compromise step away from the peer's offer (or computed from swapped operands) never converges; completing with a signature made for another fee yields an invalid transaction", 22,
 		func(o *an.Obl) {
 			cc := "lnwallet/chancloser."
@@ -416,21 +412,36 @@ func runC17(r *an.Run) {
 				if a[0] != "$p0" || a[1] != "$recv.localDeliveryScript" || a[2] != "$recv.remoteDeliveryScript" {
 					o.FailAt(ps.ID+"#proposal-args", prop[0].Where(), "the proposal is created with (%s, %s, %s)", a[0], a[1], a[2])
 				}
+				nStored := 0
 				for _, v := range ps.Graph().V {
 					as, ok := v.Node.(*ast.AssignStmt)
 					if !ok || len(as.Lhs) != 1 {
 						continue
 					}
 					l := ps.Canon(as.Lhs[0])
-					if l == "$recv.lastFeeProposal" || l == "$recv.priorFeeOffers[$p0]" {
+					if l == "$recv.lastFeeProposal" || strings.HasPrefix(l, "$recv.priorFeeOffers[") {
 						s := an.Site{Fn: ps, V: v, Node: as}
 						o.Site("%s", s.String())
 						mustPass(o, ps, "CreateCloseProposal", prop, an.OkErrNil, []an.Site{s})
 						if l == "$recv.lastFeeProposal" && ps.Canon(as.Rhs[0]) != "$p0" {
 							o.FailAt(ps.ID+"#last-fee", s.Where(), "lastFeeProposal is set to %s", an.Text(as.Rhs[0]))
 						}
+						if l != "$recv.lastFeeProposal" {
+							// the signed offer is filed under the fee it was signed for
+							nStored++
+							if l != "$recv.priorFeeOffers[$p0]" {
+								o.FailAt(ps.ID+"#offer-key", s.Where(), "the signed offer is stored as %s, expected under the fee it was signed for (completion looks our signature up by the peer's fee)", an.Text(as.Lhs[0]))
+							}
+							if len(as.Rhs) != 1 || !reMatch(`^lnwire\.NewClosingSigned\([^,]+, \$p0, `, ps.Canon(as.Rhs[0])) {
+								o.FailAt(ps.ID+"#offer-value", s.Where(), "the offer stored for the fee is %s, expected the closing_signed message built for that fee", an.Text(as.Rhs[0]))
+							}
+						}
 					}
 				}
+				if nStored != 1 {
+					o.FailAt(ps.ID+"#offer-stored", ps.Where(ps.Body.Pos()), "expected exactly one place that stores the signed offer in priorFeeOffers, found %d", nStored)
+				}
+				notReassigned(o, ps, c17ParamNames(ps, 0)...)
 			}
 		})
 
